@@ -282,15 +282,18 @@ class DoitMain(object):
             cmd_name = args.pop(0)
 
         # execute command
-        command = sub_cmds.get_plugin(cmd_name)(
-            task_loader=task_loader,
-            config=self.config,
-            bin_name=self.BIN_NAME,
-            cmds=sub_cmds,
-            opt_vals=loader_params,
-        )
-
+        command = None
         try:
+            # creating a command also creates its parser, which reads values
+            # from the config: an invalid value is reported like any other
+            # parse error
+            command = sub_cmds.get_plugin(cmd_name)(
+                task_loader=task_loader,
+                config=self.config,
+                bin_name=self.BIN_NAME,
+                cmds=sub_cmds,
+                opt_vals=loader_params,
+            )
             return command.parse_execute(args)
 
         # dont show traceback for user errors.
@@ -303,7 +306,7 @@ class DoitMain(object):
             return 3
 
         except Exception:
-            if command.pdb:  # pragma: no cover
+            if command is not None and command.pdb:  # pragma: no cover
                 import pdb
                 pdb.post_mortem(sys.exc_info()[2])
             sys.stderr.write(traceback.format_exc())
